@@ -8,6 +8,8 @@ clean; it is restored after every run, also on failure. The evidence files in
 /verif/evidence are restored afterwards as well (they must describe the unchanged tree).
 
   run_seeded.py [quick|thorough] [id-prefix ...]
+  run_seeded.py --neutral [quick|thorough] [id-prefix ...]   the property-preserving refactorings in neutral/:
+                                                             the check has to stay silent (exit 0)
 """
 import json, os, re, shutil, subprocess, sys, time
 
@@ -23,10 +25,22 @@ def sh(cmd, cwd=None, timeout=None):
 
 def main():
     args = sys.argv[1:]
+    neutral = False
+    if args and args[0] == "--neutral":
+        neutral = True
+        args.pop(0)
+    global SEEDED
+    if neutral:
+        SEEDED = os.path.join(VERIF, "neutral")
     tier = "quick"
     if args and args[0] in ("quick", "thorough"):
         tier = args.pop(0)
-    ids = sorted(d for d in os.listdir(SEEDED) if os.path.isfile(os.path.join(SEEDED, d, "patch.diff")))
+    def patch_of(i):
+        for n in ("patch.ported.diff", "patch.diff"):
+            if os.path.isfile(os.path.join(SEEDED, i, n)):
+                return os.path.join(SEEDED, i, n)
+        return None
+    ids = sorted(d for d in os.listdir(SEEDED) if patch_of(d))
     if args:
         ids = [i for i in ids if any(i.startswith(a) for a in args)]
     rc, out = sh("git status --porcelain", REPO)
@@ -39,12 +53,12 @@ def main():
         d = os.path.join(SEEDED, i)
         mp = os.path.join(d, "meta.json")
         meta = json.load(open(mp)) if os.path.exists(mp) else {}
-        prop = meta.get("property") or ("C09" if "_c09_" in i else "C20")
+        prop = meta.get("property") or ("C09" if ("_c09_" in i or i.startswith("n09")) else "C20")
         ev = os.path.join(VERIF, "evidence", prop + ".json")
         bak = ev + ".bak"
         if os.path.exists(ev):
             shutil.copy(ev, bak)
-        rc, out = sh(["git", "apply", os.path.join(d, "patch.diff")], REPO)
+        rc, out = sh(["git", "apply", patch_of(i)], REPO)
         if rc != 0:
             print(i, "patch does not apply:", out)
             summary.append((i, "patch-does-not-apply"))
@@ -53,7 +67,7 @@ def main():
         try:
             rc, out = sh(["./check", prop, tier], VERIF, timeout=4 * 3600)
         finally:
-            sh("git checkout -- . && git clean -fdq", REPO)
+            sh("git checkout -- . && git clean -fdq -e Cargo.lock", REPO)
             if os.path.exists(bak):
                 shutil.move(bak, ev)
         wall = time.time() - t
@@ -62,17 +76,19 @@ def main():
         first = [l for l in out.splitlines() if re.match(r"^(E[123]-VIOLATION|C20 violation)", l)]
         meta.setdefault("property", prop)
         meta.setdefault("runs", {})[tier] = {
-            "procedure": "git -C /repo apply seeded/%s/patch.diff; ./check %s %s; git -C /repo checkout -- ." % (i, prop, tier),
+            "procedure": "git -C /repo apply %s; ./check %s %s; git -C /repo checkout -- ." % (os.path.relpath(patch_of(i), VERIF), prop, tier),
             "repo_head": sh("git rev-parse --short HEAD", REPO)[1].strip(),
             "verif_head": sh("git rev-parse --short HEAD", VERIF)[1].strip(),
             "exit_code": rc,
             "detected": rc == 1 and bool(vio),
+            **({"silent": rc == 0 and not vio} if neutral else {}),
             "violation_line": vio[0] if vio else None,
             "first_reports": [re.sub(r"replay\S*=\S+", "", l).strip()[:300] for l in first[:3]],
             "wall_s": round(wall, 1),
         }
         json.dump(meta, open(mp, "w"), indent=1)
-        print("%-48s %s %s rc=%d %.0fs %s" % (i, prop, tier, rc, wall, "DETECTED" if rc == 1 and vio else "MISSED" if rc == 0 else "ERROR"), flush=True)
+        verdict = ("SILENT" if rc == 0 and not vio else "ALARM" if rc == 1 else "ERROR") if neutral else ("DETECTED" if rc == 1 and vio else "MISSED" if rc == 0 else "ERROR")
+        print("%-48s %s %s rc=%d %.0fs %s" % (i, prop, tier, rc, wall, verdict), flush=True)
         summary.append((i, rc))
     return 0
 
